@@ -47,6 +47,7 @@ func (e *Engine) reset() {
 	e.cellSeq = 0
 	e.makeFuncs = map[string]*Closure{}
 	e.sitesHit = map[string]bool{}
+	e.loopsHit = map[string]bool{}
 	e.entered = map[string]bool{}
 }
 
@@ -81,23 +82,28 @@ func (e *Engine) analyse(fn *ssa.Function, blk *Block) (rep *FuncReport) {
 	}()
 	st := &State{Cells: map[*Cell]Val{}, Heap: map[string]string{}, Escaped: map[string]bool{}, Ghost: map[string]Val{}, Facts: map[string]string{}, Counters: map[string]T{}, Entry: map[string]Val{}, Shared: map[*Cell]string{}}
 	fr := &Frame{Fn: fn, Vals: map[ssa.Value]Val{}, Cells: map[string]*Cell{}, LoopSeen: map[int]bool{}}
+	ri := &ReplayInfo{Fn: fn}
+	e.replayInfo[name] = ri
 	for _, p := range fn.Params {
 		v := e.freshVal(st, p.Type(), "in_"+p.Name())
 		fr.Vals[p] = v
 		fr.Args = append(fr.Args, v)
 		st.Entry[p.Name()] = v
+		ri.Params = append(ri.Params, ReplayVar{Name: p.Name(), Typ: p.Type(), V: v})
 	}
 	// free variables of a closure analysed on its own: symbolic cells / refs
 	for _, fv := range fn.FreeVars {
 		et := fv.Type().(*types.Pointer).Elem()
 		if _, ok := et.Underlying().(*types.Struct); ok {
 			ref := e.freshConst("fv_"+fv.Name(), SRef)
+			ri.Free = append(ri.Free, ReplayVar{Name: fv.Name(), Typ: et, V: ref})
 			st.assume(Not(Eq(ref, NilOf(SRef))))
 			fr.Binds = append(fr.Binds, ref)
 			continue
 		}
 		c := &Cell{ID: e.nextCell(), Name: fv.Name(), Typ: et}
 		st.Cells[c] = e.freshVal(st, et, "fv_"+fv.Name())
+		ri.Free = append(ri.Free, ReplayVar{Name: fv.Name(), Typ: et, V: st.Cells[c]})
 		st.Entry["fv:"+fv.Name()] = st.Cells[c]
 		fr.Cells[fv.Name()] = c
 		fr.Binds = append(fr.Binds, &Addr{Kind: ACell, Cell: c, FieldT: et})
@@ -197,6 +203,15 @@ func (e *Engine) analyse(fn *ssa.Function, blk *Block) (rep *FuncReport) {
 				}
 				e.emitBroken(st, fmt.Sprintf("%s/%s@%s:%s", fnm, kind, cl.Words[0], cl.Label()), cl, why)
 			}
+		}
+	}
+	// loop clauses of the analysed function that name a loop no explored path enters (or that does not exist)
+	if blk != nil {
+		for _, cl := range blk.All("loop") {
+			if len(cl.Words) < 2 || e.loopsHit[name+"|"+cl.Words[0]] {
+				continue
+			}
+			e.emitBroken(st, fmt.Sprintf("%s/loop:%s/%s:%s", name, cl.Words[0], cl.Words[1], cl.Label()), cl, "no explored path enters a loop with this ordinal in the current source")
 		}
 	}
 	rep.Queries = e.queries
@@ -338,6 +353,8 @@ func (e *Engine) checkExit(run *Run, ex *Exit, blk *Block) {
 	st := ex.St
 	fr := st.Frames[0]
 	name := e.fnName[fr.Fn]
+	e.curExit = &ExitInfo{Results: ex.Results, Panic: ex.Panic}
+	defer func() { e.curExit = nil }()
 	if st.OldHeap != nil && !st.OldSet {
 		st.OldSet = true // no acquisition on this path: old() is the entry state
 	}
@@ -352,6 +369,20 @@ func (e *Engine) checkExit(run *Run, ex *Exit, blk *Block) {
 		return c
 	}
 	if ex.Panic {
+		// callers see a panic of this function only through `panics` / `maypanic`: a reachable panic exit must be declared
+		if blk.First("maypanic") == nil && blk.First("inline") == nil && e.calledInPackage(fr.Fn) {
+			var conds []T
+			for _, cl := range blk.All("panics") {
+				x, err := parseSpec(cl.Expr)
+				if err != nil {
+					continue
+				}
+				c := entryCtx()
+				conds = append(conds, c.withHeap(st.OldHeap, func() SV { return SV{V: c.boolTerm(x)} }).V.(T))
+			}
+			e.emitWith(st, name+"/panics-declared", "", nil, Or(conds...),
+				"a panic of this function (here from "+st.Facts["panic.site"]+") is covered by its panics clauses or a maypanic declaration", st.Facts["panic.site"], []string{"C12"}, nil)
+		}
 		// nopanic label : Q  -- if Q held at entry the function does not panic
 		for _, cl := range blk.All("nopanic") {
 			x, err := parseSpec(cl.Expr)
@@ -734,4 +765,34 @@ func (r *Run) effectsOfFunction(fn *ssa.Function, binds []Val, regions map[strin
 		return
 	}
 	scanFn(fn, binds)
+}
+
+// calledInPackage: is fn called (or started, deferred, or created as a closure) by library code, so that its
+// contract stands in for its body somewhere.
+func (e *Engine) calledInPackage(fn *ssa.Function) bool {
+	if e.calledFns == nil {
+		e.calledFns = map[*ssa.Function]bool{}
+		for f := range e.fnName {
+			for _, b := range f.Blocks {
+				for _, in := range b.Instrs {
+					switch x := in.(type) {
+					case ssa.CallInstruction:
+						if sc := x.Common().StaticCallee(); sc != nil {
+							if o := sc.Origin(); o != nil {
+								sc = o
+							}
+							if sc != f {
+								e.calledFns[sc] = true
+							}
+						}
+					case *ssa.MakeClosure:
+						if c, ok := x.Fn.(*ssa.Function); ok {
+							e.calledFns[c] = true
+						}
+					}
+				}
+			}
+		}
+	}
+	return e.calledFns[fn]
 }
